@@ -22,6 +22,10 @@ GRIDS_MORE = [
 def run(tier, seed):
     ctx = CheckContext("C04", tier, seed)
     ctx.invariants = ["NothingMissed", "TightSpan", "EqualsFixed", "ContentsStayPut"]
+    # design level, unbounded: the axis algebra (grown axis = hull of the old range and the new index, earlier bins stay,
+    # order of arrival irrelevant) is proved by TLAPS for all integers (spec/PhystAdaptiveProof.tla over spec/PhystAxis.tla)
+    from lib.tlaps import run_tlapm
+    ctx.extra["tlaps"] = run_tlapm("PhystAdaptiveProof")
     if tier == "thorough":
         ctx.model_check("MC_Adaptive_c04t", dump=False)        # deep exhaustive run (far index 50, one more call)
     _res, g = ctx.model_check("MC_Adaptive_c04q", required_actions=REQ)
